@@ -26,7 +26,9 @@
 (*   <<"bin", f, t, u>> binary operator f applied to (t, u) in this order  *)
 (*   <<"fold", f, <<t...>>>> left fold, <<"dot", <<<<t,u>>...>>>>          *)
 (*   <<"ix", n>>       the integer n (an index result)                     *)
-(*   <<"b", t>>        truth value t (0/1) in the result kind              *)
+(*   <<"cmp", f, t, u>> truth value of Go's comparison f of (t, u)         *)
+(*   <<"b", t>>        truth value t as 1/0 of the element type            *)
+(*   <<"clamp", t, lo, hi>>                                                *)
 (* The harness evaluates a term with Go's own operator of the element      *)
 (* type; Interp.tla evaluates it over the integers.                        *)
 (***************************************************************************)
@@ -71,8 +73,11 @@ WriteCells(S, cs, vs) ==
 AllocL(S, init, kind) ==
     LET start == Len(S.heap) + 1
     IN [S |-> [S EXCEPT !.heap = S.heap \o init,
-                        !.allocs = Append(S.allocs, [start |-> start, len |-> Len(init), kind |-> kind])],
+                        !.allocs = Append(S.allocs, [start |-> start, len |-> Len(init), kind |-> kind, et |-> ""])],
         start |-> start]
+
+(* element type tag of the latest allocation: "" = the element type of the run, "bool", "int" *)
+SetET(S, et) == [S EXCEPT !.allocs[Len(S.allocs)].et = et]
 
 ValuesOf(S, cs) == [k \in 1..Len(cs) |-> S.heap[cs[k]]]
 
@@ -83,7 +88,7 @@ ValuesOf(S, cs) == [k \in 1..Len(cs) |-> S.heap[cs[k]]]
 (*   "Fconv"  the constructor that converts a given (row-major) sequence   *)
 (*            to column-major: the sequence keeps its row-major meaning    *)
 (***************************************************************************)
-NewT(S, shape, ctor) ==
+NewT(S, shape, ctor, et) ==
     LET n     == Prod(shape)
         start == Len(S.heap) + 1
         ord   == IF ctor = "C" THEN "C" ELSE "F"
@@ -94,7 +99,7 @@ NewT(S, shape, ctor) ==
         a     == AllocL(S, init, IF ctor = "Fconv" THEN "l" ELSE "b")
         t     == [shape |-> shape, cells |-> cells, view |-> FALSE, pend |-> NoPend,
                   ord |-> ord, al |-> Len(S.allocs) + 1, wide |-> FALSE]
-    IN OkH(AddLive(a.S, t), NewH(S))
+    IN OkH(AddLive(SetET(a.S, et), t), NewH(S))
 
 (***************************************************************************)
 (* Element access                                                          *)
@@ -312,10 +317,80 @@ ReshapeT(S, h, nsh) ==
                           Res("ok", t.view, 0, <<>>, <<>>)), PhysTags(S, h))
 
 (***************************************************************************)
+(* Elementwise operations and their option modes.                          *)
+(*   vals   the delivered values (terms) in logical row-major order        *)
+(*   mode   "safe"   a fresh tensor, every operand unchanged               *)
+(*          "unsafe" overwrite and return tensor u (the first tensor       *)
+(*                   operand)                                              *)
+(*          "reuse"  write into tensor d and return it                     *)
+(*          "incr"   add into tensor d and return it                       *)
+(* In every mode the delivered values are the safe-mode values and no      *)
+(* tensor other than the designated destination changes.                   *)
+(***************************************************************************)
+FreshResult(S, shape, ord, vals, et) ==
+    LET a == AllocL(S, vals, "l")
+        t == [shape |-> shape, cells |-> [k \in 1..Len(vals) |-> a.start + k - 1], view |-> FALSE,
+              pend |-> NoPend, ord |-> ord, al |-> Len(S.allocs) + 1, wide |-> FALSE]
+    IN OkH(AddLive(SetET(a.S, et), t), NewH(S))
+
+Deliver(S, shape, ord, vals, mode, d, u, et, mayRefuse) ==
+    CASE mode = "safe"   -> LET o == FreshResult(S, shape, ord, vals, et)
+                            IN Out(o.S, [o.res EXCEPT !.ref = mayRefuse])
+      [] mode = "unsafe" -> Out(WriteCells(S, S.live[u].cells, vals), Res("ok", mayRefuse, u, <<>>, <<>>))
+      [] mode = "reuse"  ->
+            LET D == S.live[d]
+            IN IF Len(D.cells) # Len(vals) THEN Err(S)
+               ELSE IF D.shape # shape THEN Free(S)
+               ELSE Out(WriteCells(S, D.cells, vals),
+                        Res("ok", mayRefuse \/ D.view \/ D.pend # NoPend, d, <<>>, <<>>))
+      [] mode = "incr"   ->
+            LET D == S.live[d]
+            IN IF Len(D.cells) # Len(vals) THEN Err(S)
+               ELSE IF D.shape # shape THEN Free(S)
+               ELSE Out(WriteCells(S, D.cells, [k \in 1..Len(vals) |-> <<"bin", "add", S.heap[D.cells[k]], vals[k]>>]),
+                        Res("ok", mayRefuse \/ D.view \/ D.pend # NoPend, d, <<>>, <<>>))
+
+(* binary arithmetic f in operand order.  form "TT": tensor h, tensor b; "TS": tensor h, scalar K(b);
+   "ST": scalar K(b), tensor h *)
+BinVals(S, h, f, form, b, head) ==
+    LET t == S.live[h]
+        A(k) == S.heap[t.cells[k]]
+    IN [k \in 1..Len(t.cells) |->
+          CASE form = "TT" -> <<head, f, A(k), S.heap[S.live[b].cells[k]]>>
+            [] form = "TS" -> <<head, f, A(k), K(b)>>
+            [] form = "ST" -> <<head, f, K(b), A(k)>>]
+
+ArithT(S, h, f, form, b, mode, d) ==
+    LET t == S.live[h]
+    IN IF form = "TT" /\ S.live[b].shape # t.shape THEN Err(S)
+       ELSE Deliver(S, t.shape, t.ord, BinVals(S, h, f, form, b, "bin"), mode, d, h, "",
+                    (* an aliasing reuse may be refused *)
+                    mode = "reuse" /\ (d = h \/ (form = "TT" /\ d = b)))
+
+(* comparisons: result kind "bool" (default), "same" (1/0 of the operand type); unsafe is in place and
+   therefore of the operand type *)
+CmpT(S, h, f, form, b, mode, d, same) ==
+    LET t == S.live[h]
+        cv == BinVals(S, h, f, form, b, "cmp")
+        asSame == same \/ mode = "unsafe"
+        vals == IF asSame THEN [k \in 1..Len(cv) |-> <<"b", cv[k]>>] ELSE cv
+    IN IF form = "TT" /\ S.live[b].shape # t.shape THEN Err(S)
+       ELSE Deliver(S, t.shape, t.ord, vals, mode, d, h, IF asSame THEN "" ELSE "bool",
+                    mode = "reuse" /\ (d = h \/ (form = "TT" /\ d = b)))
+
+(* unary functions; "clamp" takes the two constants K(lo), K(hi) *)
+UnaryT(S, h, f, mode, d, lo, hi) ==
+    LET t == S.live[h]
+        vals == [k \in 1..Len(t.cells) |->
+                   IF f = "clamp" THEN <<"clamp", S.heap[t.cells[k]], K(lo), K(hi)>>
+                   ELSE <<"un", f, S.heap[t.cells[k]]>>]
+    IN Deliver(S, t.shape, t.ord, vals, mode, d, h, "", mode = "reuse" /\ d = h)
+
+(***************************************************************************)
 (* The transition function.  op = [k, h, a] : kind, main handle, arguments *)
 (***************************************************************************)
 Apply(S, op) ==
-    CASE op.k = "New"         -> NewT(S, op.a[1], op.a[2])
+    CASE op.k = "New"         -> NewT(S, op.a[1], op.a[2], IF Len(op.a) >= 3 THEN op.a[3] ELSE "")
       [] op.k = "At"          -> AtT(S, op.h, op.a)
       [] op.k = "SetAt"       -> SetAtT(S, op.h, op.a[1], K(op.a[2]))
       [] op.k = "Slice"       -> SliceT(S, op.h, op.a)
@@ -336,6 +411,9 @@ Apply(S, op) ==
       [] op.k = "UnsafeBinT"  -> UnsafeBinTT(S, op.h, op.a[1], op.a[2])
       [] op.k = "CopyTo"      -> CopyToT(S, op.h, op.a[1])
       [] op.k = "Export"      -> ExportT(S, op.h, op.a[1])
+      [] op.k = "Arith"       -> ArithT(S, op.h, op.a[1], op.a[2], op.a[3], op.a[4], op.a[5])
+      [] op.k = "Cmp"         -> CmpT(S, op.h, op.a[1], op.a[2], op.a[3], op.a[4], op.a[5], op.a[6] = 1)
+      [] op.k = "Unary"       -> UnaryT(S, op.h, op.a[1], op.a[2], op.a[3], op.a[4], op.a[5])
 
 Op(k, h, a) == [k |-> k, h |-> h, a |-> a]
 
@@ -345,6 +423,17 @@ Do(op) ==
        /\ allocs' = o.S.allocs
        /\ live'   = o.S.live
        /\ steps'  = Append(steps, [op |-> op, res |-> o.res])
+
+(* several calls in one step of the specification (a program prefix that builds the operands) *)
+RECURSIVE RunOps(_, _, _)
+RunOps(S, ops, acc) ==
+    IF ops = <<>> THEN [S |-> S, steps |-> acc]
+    ELSE LET o == Apply(S, Head(ops))
+         IN IF o.res.st # "ok" THEN [S |-> o.S, steps |-> Append(acc, [op |-> Head(ops), res |-> o.res])]
+            ELSE RunOps(o.S, Tail(ops), Append(acc, [op |-> Head(ops), res |-> o.res]))
+DoAll(ops) ==
+    LET r == RunOps(St, ops, steps)
+    IN /\ heap' = r.S.heap /\ allocs' = r.S.allocs /\ live' = r.S.live /\ steps' = r.steps
 
 Init == heap = <<>> /\ allocs = <<>> /\ live = <<>> /\ steps = <<>>
 
